@@ -26,6 +26,23 @@
           channel: "snap" .. "ucb"] -> "kdisc" (OnDisconnect) -> done
      dissolver job: JobRun (atomic under the channel's subLock)
 
+   Routing attributes: every subscribe thread of a behaviour carries a routing attribute (attr: none / fA / fB = the
+   subscription's tags filter); the hub entry (subInfo) is written as a whole by addSub, so it carries the
+   attribute of the generation that wrote it (hubA). C04 requires the settled routing entry to carry the attributes
+   of the subscription the connection reports.
+
+   Failing round trips: the calls named in Faults (PublishJoin, PublishLeave, AddPresence, RemovePresence,
+   BrokerUnsubscribe) may return an error, at most MaxFaults times per behaviour. What the code does with the error
+   at each call site is modelled exactly:
+     AddPresence   in subscribeCmd: nothing landed; presenceAdded is marked anyway, the deferred
+                   removeSubscribePresence runs, the caller rolls back generation-matched (onSubscribeErrorGen);
+                   client-side: disconnect(server error) => go c.close; server-side: the error is returned only.
+                   in the presence tick: logged; compensateRacedPresence still runs.
+     RemovePresence (the removal landed, the reply was lost): logged at every call site, the unsubscribe continues.
+     PublishJoin / PublishLeave: the result is ignored (`_ =`); the unsubscribe continues with removeSubscription.
+     BrokerUnsubscribe in the dissolver job: the job cools down, returns the error and is re-queued (retry).
+   jl records the join / leave CALLS in the order they reach the broker, whatever their result.
+
    Properties: C04 (routing = subscription state), C05 (nothing survives close),
    C06 (presence = live subscription), C07 (join/leave paired and ordered),
    C08 (one unsubscribe callback per ended subscription, one disconnect), C26
@@ -44,19 +61,33 @@ CONSTANTS
   NoPush,         \* subset of BOOLEAN: TRUE = the transport disables subscribe pushes (Transport.DisabledPushFlags has
                   \* PushFlagSubscribe, e.g. a unidirectional transport that reports subscriptions differently): the
                   \* server-side subscribe writes no push; everything else (join, presence, leave) is unaffected
-  JobsLast        \* TRUE: dissolver jobs run only after every thread finished (replay configs: the job's
+  JobsLast,       \* TRUE: dissolver jobs run only after every thread finished (replay configs: the job's
                   \* 1 s delay cannot be scheduled), FALSE: at any time (design check)
+  AttrPairs,      \* set of <<attribute of the client-side subscribe, attribute of the server-side subscribe>>
+  Faults,         \* subset of FaultCalls: the round trips that may fail
+  MaxFaults       \* fault budget of one behaviour
+
+FaultCalls == {"PublishJoin", "PublishLeave", "AddPresence", "RemovePresence", "BrokerUnsubscribe"}
+AttrVals   == {"none", "fA", "fB"}
+AP_None    == {<<"none", "none">>}
+AP_Two     == {<<"fA", "none">>, <<"none", "fB">>}
+AP_Quick   == {<<"fA", "none">>, <<"none", "fB">>, <<"fA", "fB">>}
+AP_All     == AttrVals \X AttrVals
 
 Threads == {"CS", "CU", "SS", "SU", "CL", "TK"}
 None == [gen |-> 0, sub |-> FALSE, subCh |-> "nil", ss |-> FALSE]
 
 VARIABLES
   ops, async, nopush,
+  attr,         \* [CS |-> routing attribute of the client-side subscribe, SS |-> of the server-side subscribe]
+  faults,       \* number of failed round trips so far
+  hist,         \* history tags for the witness predicates only (not in the VIEW, read by no invariant)
   pc, loc,
   entry,        \* c.channels[ch] (None = absent)
   ctr,          \* subGenCounter
   closedGens,   \* generations whose subscribingCh has been closed
   hubE,         \* generation of the hub routing entry (0 = none)
+  hubA,         \* routing attributes of the hub entry = attr of the subscribe that wrote it ("none" when absent)
   brokerSub,    \* node is subscribed to the channel in the broker
   jobs,         \* pending dissolver jobs
   pres,         \* presence manager holds the connection in the channel
@@ -70,18 +101,20 @@ VARIABLES
   out,          \* frames written to the connection: "subreply", "subpush", "unsubreply", "unsubpush", "suberr", "disc"
   step
 
-vars == <<ops, async, nopush, pc, loc, entry, ctr, closedGens, hubE, brokerSub, jobs, pres, status, closeReq, closing, settled,
+vars == <<ops, async, nopush, attr, faults, hist, pc, loc, entry, ctr, closedGens, hubE, hubA, brokerSub, jobs, pres, status, closeReq, closing, settled,
           established, jl, cbs, out, step>>
 
 NoLoc == [gen |-> 0, has |-> FALSE, tgen |-> 0, wait |-> FALSE, wasSub |-> FALSE, rgen |-> 0, snap |-> FALSE]
 
 Init ==
   /\ ops \in OpSets /\ async \in BOOLEAN /\ nopush \in NoPush
+  /\ \E ap \in AttrPairs : attr = [CS |-> IF "CS" \in ops THEN ap[1] ELSE "none", SS |-> IF "SS" \in ops THEN ap[2] ELSE "none"]
+  /\ faults = 0 /\ hist = {} /\ hubA = "none"
   /\ pc = [t \in Threads |-> "idle"] /\ loc = [t \in Threads |-> NoLoc]
   /\ entry = None /\ ctr = 0 /\ closedGens = {} /\ hubE = 0 /\ brokerSub = FALSE /\ jobs = 0
   /\ pres = FALSE /\ status = "connected" /\ closeReq = FALSE /\ closing = FALSE /\ settled = FALSE /\ established = 0
   /\ jl = <<>> /\ cbs = <<>> /\ out = <<>>
-  /\ step = [act |-> "Init"]
+  /\ step = [thr |-> "-", act |-> "Init", fail |-> FALSE]
 
 Has == entry # None
 NoBsub == \A t \in Threads : pc[t] # "bsub"          \* the channel's subLock is free
@@ -89,10 +122,20 @@ NoBsub == \A t \in Threads : pc[t] # "bsub"          \* the channel's subLock is
 \* a frame enqueued after close() shut the writer (same critical section as the status flip) is dropped
 Write(f)    == IF status = "closed" THEN out ELSE Append(out, f)
 Go(t, p)    == pc' = [pc EXCEPT ![t] = p]
-Step(t, a)  == step' = [thr |-> t, act |-> a]
+Step(t, a)  == step' = [thr |-> t, act |-> a, fail |-> FALSE]
+StepF(t, a, f) == step' = [thr |-> t, act |-> a, fail |-> f]
+
+\* a round trip `call` of thread t may fail while the budget lasts; the fault is counted and tagged
+MayFail(call) == IF call \in Faults /\ faults < MaxFaults THEN {FALSE, TRUE} ELSE {FALSE}
+Fault(call, t, f) == /\ faults' = IF f THEN faults + 1 ELSE faults
+                     /\ hist' = IF f THEN hist \cup {<<call, t>>} ELSE hist
+
+\* hub addSub: the entry of this connection is written as a whole (generation and routing attributes)
+HubAdd(t, g) == hubE' = g /\ hubA' = attr[t]
+OverTag(t)   == IF hubE # 0 /\ hubA # attr[t] THEN {<<"over", t>>} ELSE {}
 
 \* hub removeSub(gen): only the matching generation is removed; an emptied channel submits a dissolver job
-HubRemove(g) == IF hubE = g /\ g # 0 THEN hubE' = 0 /\ jobs' = jobs + 1 ELSE UNCHANGED <<hubE, jobs>>
+HubRemove(g) == IF hubE = g /\ g # 0 THEN hubE' = 0 /\ hubA' = "none" /\ jobs' = jobs + 1 ELSE UNCHANGED <<hubE, hubA, jobs>>
 
 \* onSubscribeErrorGen(g): drop the reservation if this attempt still owns it, remove the hub entry generation-matched
 ErrRollback(g) ==
@@ -115,7 +158,7 @@ CSReserve ==
           /\ ctr' = ctr + 1
           /\ loc' = [loc EXCEPT !["CS"].gen = ctr + 1]
           /\ Go("CS", "cb") /\ UNCHANGED out
-  /\ UNCHANGED <<ops, async, nopush, closedGens, hubE, brokerSub, jobs, pres, status, closeReq, closing, settled, established, jl, cbs>>
+  /\ UNCHANGED <<ops, async, nopush, attr, faults, hist, closedGens, hubE, hubA, brokerSub, jobs, pres, status, closeReq, closing, settled, established, jl, cbs>>
   /\ Step("CS", "Reserve")
 
 \* the second "still reserved and not closed" check of subscribeCmd (by channel NAME, not generation)
@@ -129,10 +172,11 @@ CSCallback ==       \* cb(reply): first check, addSubscription
   /\ pc["CS"] = "cb" /\ NoBsub
   /\ LET g == loc["CS"].gen IN
      IF ~StillReserved
-       THEN CSFail(g) /\ UNCHANGED <<brokerSub, pres>>
-       ELSE /\ hubE' = g /\ UNCHANGED <<jobs, entry, closedGens, closeReq, closing, settled, brokerSub, pres>>
+       THEN CSFail(g) /\ UNCHANGED <<brokerSub, pres, hist>>
+       ELSE /\ HubAdd("CS", g) /\ hist' = hist \cup OverTag("CS")
+            /\ UNCHANGED <<jobs, entry, closedGens, closeReq, closing, settled, brokerSub, pres>>
             /\ IF hubE = 0 THEN Go("CS", "bsub") ELSE Go("CS", "pres")
-  /\ UNCHANGED <<ops, async, nopush, loc, ctr, status, established, jl, cbs, out, closing, settled>>
+  /\ UNCHANGED <<ops, async, nopush, attr, faults, loc, ctr, status, established, jl, cbs, out, closing, settled>>
   /\ Step("CS", "Callback")
 
 CSBrokerSubscribed ==
@@ -146,16 +190,24 @@ CSBrokerSubscribed ==
                  THEN entry' = None /\ closedGens' = IF entry.subCh = "open" THEN closedGens \cup {g} ELSE closedGens
                  ELSE UNCHANGED <<entry, closedGens>>
             /\ HubRemove(g)
-       ELSE Go("CS", "pres") /\ UNCHANGED <<entry, closedGens, hubE, jobs, closeReq, closing, settled>>
-  /\ UNCHANGED <<ops, async, nopush, loc, ctr, pres, status, established, jl, cbs, out, closing, settled>>
+       ELSE Go("CS", "pres") /\ UNCHANGED <<entry, closedGens, hubE, hubA, jobs, closeReq, closing, settled>>
+  /\ UNCHANGED <<ops, async, nopush, attr, faults, hist, loc, ctr, pres, status, established, jl, cbs, out, closing, settled>>
   /\ Step("CS", "BrokerSubscribed")
 
 CSPresenceReply ==  \* AddPresence lands, subscribe reply enqueued
   /\ pc["CS"] = "pres"
-  /\ pres' = TRUE /\ out' = Write("subreply")
-  /\ Go("CS", "replied")
-  /\ UNCHANGED <<ops, async, nopush, loc, entry, ctr, closedGens, hubE, brokerSub, jobs, status, closeReq, closing, settled, established, jl, cbs>>
-  /\ Step("CS", "PresenceReply")
+  /\ \E f \in MayFail("AddPresence") :
+       /\ Fault("AddPresence", "CS", f) /\ StepF("CS", "PresenceReply", f)
+       /\ IF f
+            THEN \* subscribeCmd returns disconnect(server error): nothing landed, the deferred removeSubscribePresence
+                 \* runs anyway, then onSubscribeErrorGen (needs the subLock) and `go c.close`
+                 /\ NoBsub
+                 /\ pres' = FALSE /\ CSFail(loc["CS"].gen)
+                 /\ UNCHANGED out
+            ELSE /\ pres' = TRUE /\ out' = Write("subreply")
+                 /\ Go("CS", "replied")
+                 /\ UNCHANGED <<entry, closedGens, hubE, hubA, jobs, closeReq>>
+  /\ UNCHANGED <<ops, async, nopush, attr, loc, ctr, brokerSub, status, closing, settled, established, jl, cbs>>
 
 \* commitSubscription for generation g; ss = server-side. Result in pc: committed -> pcOk, else pcFail
 Commit(t, g, ss, pcOk, pcFail, failSpawnsClose) ==
@@ -169,7 +221,7 @@ Commit(t, g, ss, pcOk, pcFail, failSpawnsClose) ==
            ELSE /\ entry' = [gen |-> g, sub |-> TRUE, subCh |-> "nil", ss |-> ss]
                 /\ closedGens' = closedGens \cup {g}
                 /\ established' = established + 1
-                /\ Go(t, pcOk) /\ UNCHANGED <<hubE, jobs, pres, closeReq, closing, settled>>
+                /\ Go(t, pcOk) /\ UNCHANGED <<hubE, hubA, jobs, pres, closeReq, closing, settled>>
     ELSE \* reservation lost to an unsubscribe: roll back only what this attempt owns
          /\ HubRemove(g) /\ pres' = FALSE
          /\ Go(t, pcFail) /\ closeReq' = (closeReq \/ failSpawnsClose)
@@ -178,47 +230,54 @@ Commit(t, g, ss, pcOk, pcFail, failSpawnsClose) ==
 CSCommit ==
   /\ pc["CS"] = "replied" /\ NoBsub
   /\ Commit("CS", loc["CS"].gen, FALSE, "join", "done", TRUE)
-  /\ UNCHANGED <<ops, async, nopush, loc, ctr, brokerSub, status, jl, cbs, out, closing, settled>>
+  /\ UNCHANGED <<ops, async, nopush, attr, faults, hist, loc, ctr, brokerSub, status, jl, cbs, out, closing, settled>>
   /\ Step("CS", "Commit")
 
 CSJoin ==
   /\ pc["CS"] = "join"
   /\ jl' = Append(jl, [k |-> "join", g |-> loc["CS"].gen]) /\ Go("CS", "done")
-  /\ UNCHANGED <<ops, async, nopush, loc, entry, ctr, closedGens, hubE, brokerSub, jobs, pres, status, closeReq, closing, settled, established, cbs, out>>
-  /\ Step("CS", "Join")
+  /\ \E f \in MayFail("PublishJoin") : Fault("PublishJoin", "CS", f) /\ StepF("CS", "Join", f)   \* result ignored
+  /\ UNCHANGED <<ops, async, nopush, attr, loc, entry, ctr, closedGens, hubE, hubA, brokerSub, jobs, pres, status, closeReq, closing, settled, established, cbs, out>>
 
 ---------------------------------------------------------------------------
 (* server-side subscribe *)
 SSReserve ==
   /\ "SS" \in ops /\ pc["SS"] = "idle" /\ NoBsub
   /\ IF status = "closed" \/ Has
-       THEN Go("SS", "done") /\ UNCHANGED <<loc, entry, ctr, hubE>>
+       THEN Go("SS", "done") /\ UNCHANGED <<loc, entry, ctr, hubE, hubA>>
        ELSE /\ entry' = [gen |-> ctr + 1, sub |-> FALSE, subCh |-> "open", ss |-> FALSE]
             /\ ctr' = ctr + 1
             /\ loc' = [loc EXCEPT !["SS"].gen = ctr + 1]
-            /\ hubE' = ctr + 1                                   \* no "still reserved" check on this path
+            /\ HubAdd("SS", ctr + 1)                             \* no "still reserved" check on this path
             /\ IF hubE = 0 THEN Go("SS", "bsub") ELSE Go("SS", "pres")
-  /\ UNCHANGED <<ops, async, nopush, closedGens, brokerSub, jobs, pres, status, closeReq, closing, settled, established, jl, cbs, out>>
+  /\ hist' = IF status = "closed" \/ Has THEN hist ELSE hist \cup OverTag("SS")
+  /\ UNCHANGED <<ops, async, nopush, attr, faults, closedGens, brokerSub, jobs, pres, status, closeReq, closing, settled, established, jl, cbs, out>>
   /\ Step("SS", "Reserve")
 
 SSBrokerSubscribed ==
   /\ pc["SS"] = "bsub"
   /\ brokerSub' = TRUE /\ Go("SS", "pres")
-  /\ UNCHANGED <<ops, async, nopush, loc, entry, ctr, closedGens, hubE, jobs, pres, status, closeReq, closing, settled, established, jl, cbs, out>>
+  /\ UNCHANGED <<ops, async, nopush, attr, faults, hist, loc, entry, ctr, closedGens, hubE, hubA, jobs, pres, status, closeReq, closing, settled, established, jl, cbs, out>>
   /\ Step("SS", "BrokerSubscribed")
 
 SSPresenceCommit ==
   /\ pc["SS"] = "pres" /\ NoBsub
-  /\ LET g == loc["SS"].gen IN
-     \* AddPresence lands, then commitSubscription (its rollback may remove the presence again)
-     IF Has /\ entry.gen = g /\ status # "closed"
-       THEN /\ pres' = TRUE
-            /\ entry' = [gen |-> g, sub |-> TRUE, subCh |-> "nil", ss |-> TRUE]
-            /\ closedGens' = closedGens \cup {g} /\ established' = established + 1
-            /\ Go("SS", "committed") /\ UNCHANGED <<hubE, jobs, closeReq, closing, settled>>
-       ELSE Commit("SS", g, TRUE, "committed", "done", FALSE)
-  /\ UNCHANGED <<ops, async, nopush, loc, ctr, brokerSub, status, jl, cbs, out, closing, settled>>
-  /\ Step("SS", "PresenceCommit")
+  /\ \E f \in MayFail("AddPresence") :
+     LET g == loc["SS"].gen IN
+     /\ Fault("AddPresence", "SS", f) /\ StepF("SS", "PresenceCommit", f)
+     /\ IF f
+          THEN \* subscribeCmd returns disconnect(server error): deferred presence removal, then Client.Subscribe
+               \* rolls back generation-matched and returns the error to its caller (no close is spawned)
+               /\ pres' = FALSE /\ ErrRollback(g) /\ Go("SS", "done")
+               /\ UNCHANGED <<closeReq, established>>
+          ELSE \* AddPresence lands, then commitSubscription (its rollback may remove the presence again)
+               IF Has /\ entry.gen = g /\ status # "closed"
+                 THEN /\ pres' = TRUE
+                      /\ entry' = [gen |-> g, sub |-> TRUE, subCh |-> "nil", ss |-> TRUE]
+                      /\ closedGens' = closedGens \cup {g} /\ established' = established + 1
+                      /\ Go("SS", "committed") /\ UNCHANGED <<hubE, hubA, jobs, closeReq, closing, settled>>
+                 ELSE Commit("SS", g, TRUE, "committed", "done", FALSE)
+  /\ UNCHANGED <<ops, async, nopush, attr, loc, ctr, brokerSub, status, jl, cbs, out, closing, settled>>
 
 SSPush ==
   /\ pc["SS"] = "committed"
@@ -226,14 +285,14 @@ SSPush ==
   \* the join is published even when the push cannot be written (connection closed meanwhile): the subscription
   \* is committed and its leave will be published
   /\ Go("SS", "join")
-  /\ UNCHANGED <<ops, async, nopush, loc, entry, ctr, closedGens, hubE, brokerSub, jobs, pres, status, closeReq, closing, settled, established, jl, cbs>>
+  /\ UNCHANGED <<ops, async, nopush, attr, faults, hist, loc, entry, ctr, closedGens, hubE, hubA, brokerSub, jobs, pres, status, closeReq, closing, settled, established, jl, cbs>>
   /\ Step("SS", "Push")
 
 SSJoin ==
   /\ pc["SS"] = "join"
   /\ jl' = Append(jl, [k |-> "join", g |-> loc["SS"].gen]) /\ Go("SS", "done")
-  /\ UNCHANGED <<ops, async, nopush, loc, entry, ctr, closedGens, hubE, brokerSub, jobs, pres, status, closeReq, closing, settled, established, cbs, out>>
-  /\ Step("SS", "Join")
+  /\ \E f \in MayFail("PublishJoin") : Fault("PublishJoin", "SS", f) /\ StepF("SS", "Join", f)   \* result ignored
+  /\ UNCHANGED <<ops, async, nopush, attr, loc, entry, ctr, closedGens, hubE, hubA, brokerSub, jobs, pres, status, closeReq, closing, settled, established, cbs, out>>
 
 ---------------------------------------------------------------------------
 (* unsubscribe: shared by CU (reply), SU (push) and CL (nothing written) *)
@@ -251,7 +310,7 @@ UStart(t) ==
   /\ IF status = "closed"
        THEN Go(t, "done") /\ UNCHANGED loc              \* Client.Unsubscribe / HandleCommand on a closed client: no-op
        ELSE UnsubSnapshot(t)
-  /\ UNCHANGED <<ops, async, nopush, entry, ctr, closedGens, hubE, brokerSub, jobs, pres, status, closeReq, closing, settled, established, jl, cbs, out>>
+  /\ UNCHANGED <<ops, async, nopush, attr, faults, hist, entry, ctr, closedGens, hubE, hubA, brokerSub, jobs, pres, status, closeReq, closing, settled, established, jl, cbs, out>>
   /\ Step(t, "UnsubStart")
 
 PendingJoin(g) == (pc["CS"] = "join" /\ loc["CS"].gen = g) \/ (pc["SS"] \in {"committed", "join"} /\ loc["SS"].gen = g)
@@ -267,37 +326,37 @@ UProceed(t) ==           \* wait gate, then the generation-matched delete under 
      IN IF gone \/ ~match
           THEN \* nothing (left) to tear down
                /\ out' = FinishFrame(t) /\ Go(t, AfterUnsub(t))
-               /\ UNCHANGED <<loc, entry, closedGens, hubE, jobs>>
+               /\ UNCHANGED <<loc, entry, closedGens, hubE, hubA, jobs>>
           ELSE /\ entry' = None
                /\ closedGens' = IF entry.subCh = "open" THEN closedGens \cup {entry.gen} ELSE closedGens
                /\ loc' = [loc EXCEPT ![t].rgen = entry.gen, ![t].wasSub = wasSub]
                /\ IF wasSub
-                    THEN Go(t, "rempres") /\ UNCHANGED <<hubE, jobs, out>>
+                    THEN Go(t, "rempres") /\ UNCHANGED <<hubE, hubA, jobs, out>>
                     ELSE \* a reservation: only the hub entry (if any) is removed, no presence/leave/callback
                          /\ NoBsub /\ HubRemove(entry.gen)
                          /\ out' = FinishFrame(t) /\ Go(t, AfterUnsub(t))
-  /\ UNCHANGED <<ops, async, nopush, ctr, brokerSub, pres, status, closeReq, closing, settled, established, jl, cbs>>
+  /\ UNCHANGED <<ops, async, nopush, attr, faults, hist, ctr, brokerSub, pres, status, closeReq, closing, settled, established, jl, cbs>>
   /\ Step(t, "UnsubProceed")
 
 URemovePresence(t) ==
   /\ pc[t] = "rempres"
-  /\ pres' = FALSE /\ Go(t, "leave")
-  /\ UNCHANGED <<ops, async, nopush, loc, entry, ctr, closedGens, hubE, brokerSub, jobs, status, closeReq, closing, settled, established, jl, cbs, out>>
-  /\ Step(t, "RemovePresence")
+  /\ pres' = FALSE /\ Go(t, "leave")      \* a failing call: the removal landed, its reply was lost; the error is only logged
+  /\ \E f \in MayFail("RemovePresence") : Fault("RemovePresence", t, f) /\ StepF(t, "RemovePresence", f)
+  /\ UNCHANGED <<ops, async, nopush, attr, loc, entry, ctr, closedGens, hubE, hubA, brokerSub, jobs, status, closeReq, closing, settled, established, jl, cbs, out>>
 
 ULeave(t) ==
   /\ pc[t] = "leave" /\ NoBsub
   /\ jl' = Append(jl, [k |-> "leave", g |-> loc[t].rgen])
-  /\ HubRemove(loc[t].rgen)
+  /\ HubRemove(loc[t].rgen)                 \* whatever PublishLeave returned (`_ =`): removeSubscription follows
   /\ Go(t, "ucb")
-  /\ UNCHANGED <<ops, async, nopush, loc, entry, ctr, closedGens, brokerSub, pres, status, closeReq, closing, settled, established, cbs, out>>
-  /\ Step(t, "Leave")
+  /\ \E f \in MayFail("PublishLeave") : Fault("PublishLeave", t, f) /\ StepF(t, "Leave", f)
+  /\ UNCHANGED <<ops, async, nopush, attr, loc, entry, ctr, closedGens, brokerSub, pres, status, closeReq, closing, settled, established, cbs, out>>
 
 UCallback(t) ==
   /\ pc[t] = "ucb"
   /\ cbs' = Append(cbs, "unsub")
   /\ out' = FinishFrame(t) /\ Go(t, AfterUnsub(t))
-  /\ UNCHANGED <<ops, async, nopush, loc, entry, ctr, closedGens, hubE, brokerSub, jobs, pres, status, closeReq, closing, settled, established, jl>>
+  /\ UNCHANGED <<ops, async, nopush, attr, faults, hist, loc, entry, ctr, closedGens, hubE, hubA, brokerSub, jobs, pres, status, closeReq, closing, settled, established, jl>>
   /\ Step(t, "UnsubCallback")
 
 ---------------------------------------------------------------------------
@@ -309,7 +368,7 @@ CLStart ==
      ELSE /\ status' = "closed"
           /\ loc' = [loc EXCEPT !["CL"].snap = Has]            \* channels snapshot under c.mu
           /\ Go("CL", "tclose")
-  /\ UNCHANGED <<ops, async, nopush, entry, ctr, closedGens, hubE, brokerSub, jobs, pres, closeReq, settled, established, jl, cbs, out>>
+  /\ UNCHANGED <<ops, async, nopush, attr, faults, hist, entry, ctr, closedGens, hubE, hubA, brokerSub, jobs, pres, closeReq, settled, established, jl, cbs, out>>
   /\ Step("CL", "CloseStart")
 
 CLTransportClosed ==
@@ -317,13 +376,13 @@ CLTransportClosed ==
   /\ pc["TK"] \notin {"tkalive", "tkpres"}          \* close() takes presenceMu, held by a running tick
   /\ out' = Append(out, "disc")
   /\ IF loc["CL"].snap THEN UnsubSnapshot("CL") ELSE Go("CL", "kdisc") /\ UNCHANGED loc
-  /\ UNCHANGED <<ops, async, nopush, entry, ctr, closedGens, hubE, brokerSub, jobs, pres, status, closeReq, closing, settled, established, jl, cbs>>
+  /\ UNCHANGED <<ops, async, nopush, attr, faults, hist, entry, ctr, closedGens, hubE, hubA, brokerSub, jobs, pres, status, closeReq, closing, settled, established, jl, cbs>>
   /\ Step("CL", "TransportClosed")
 
 CLDisconnectCb ==
   /\ pc["CL"] = "kdisc"
   /\ cbs' = Append(cbs, "disc") /\ Go("CL", "done")
-  /\ UNCHANGED <<ops, async, nopush, loc, entry, ctr, closedGens, hubE, brokerSub, jobs, pres, status, closeReq, closing, settled, established, jl, out>>
+  /\ UNCHANGED <<ops, async, nopush, attr, faults, hist, loc, entry, ctr, closedGens, hubE, hubA, brokerSub, jobs, pres, status, closeReq, closing, settled, established, jl, out>>
   /\ Step("CL", "DisconnectCallback")
 
 ---------------------------------------------------------------------------
@@ -336,21 +395,23 @@ TKStart ==
        THEN Go("TK", "done")                         \* closed, or no subscribed channel with duties: nothing to do
        ELSE Go("TK", "tkalive")                      \* snapshot taken, parked in the alive callback
   /\ loc' = [loc EXCEPT !["TK"].tgen = entry.gen]
-  /\ UNCHANGED <<ops, async, nopush, entry, ctr, closedGens, hubE, brokerSub, jobs, pres, status, closeReq, closing, settled, established, jl, cbs, out>>
+  /\ UNCHANGED <<ops, async, nopush, attr, faults, hist, entry, ctr, closedGens, hubE, hubA, brokerSub, jobs, pres, status, closeReq, closing, settled, established, jl, cbs, out>>
   /\ Step("TK", "TickStart")
 
 TKCheck ==          \* closing? channel still present (by name)? then AddPresence
   /\ pc["TK"] = "tkalive"
   /\ IF closing \/ ~Has THEN Go("TK", "done") ELSE Go("TK", "tkpres")
-  /\ UNCHANGED <<ops, async, nopush, loc, entry, ctr, closedGens, hubE, brokerSub, jobs, pres, status, closeReq, closing, settled, established, jl, cbs, out>>
+  /\ UNCHANGED <<ops, async, nopush, attr, faults, hist, loc, entry, ctr, closedGens, hubE, hubA, brokerSub, jobs, pres, status, closeReq, closing, settled, established, jl, cbs, out>>
   /\ Step("TK", "TickCheck")
 
 TKAdd ==            \* AddPresence lands; compensateRacedPresence removes it again if the channel is gone (by name)
   /\ pc["TK"] = "tkpres"
-  /\ pres' = Has
+  /\ \E f \in MayFail("AddPresence") :
+       /\ Fault("AddPresence", "TK", f) /\ StepF("TK", "TickAdd", f)
+       \* a failing add lands nothing and is logged; the compensation runs all the same (presenceAdded = attempted)
+       /\ pres' = IF f THEN (IF Has THEN pres ELSE FALSE) ELSE Has
   /\ Go("TK", "done")
-  /\ UNCHANGED <<ops, async, nopush, loc, entry, ctr, closedGens, hubE, brokerSub, jobs, status, closeReq, closing, settled, established, jl, cbs, out>>
-  /\ Step("TK", "TickAdd")
+  /\ UNCHANGED <<ops, async, nopush, attr, loc, entry, ctr, closedGens, hubE, hubA, brokerSub, jobs, status, closeReq, closing, settled, established, jl, cbs, out>>
 
 ---------------------------------------------------------------------------
 AllDone == /\ \A t \in Threads : pc[t] \in {"idle", "done"}
@@ -360,18 +421,20 @@ AllDone == /\ \A t \in Threads : pc[t] \in {"idle", "done"}
 JobRun ==
   /\ jobs > 0 /\ NoBsub
   /\ JobsLast => AllDone
-  /\ jobs' = jobs - 1
-  /\ brokerSub' = IF hubE = 0 THEN FALSE ELSE brokerSub
-  /\ UNCHANGED <<ops, async, nopush, pc, loc, entry, ctr, closedGens, hubE, pres, status, closeReq, closing, settled, established, jl, cbs, out>>
-  /\ step' = [thr |-> "JOB", act |-> "JobRun"]
+  /\ \E f \in (IF hubE = 0 THEN MayFail("BrokerUnsubscribe") ELSE {FALSE}) :    \* the call is made only for an empty channel
+       /\ Fault("BrokerUnsubscribe", "JOB", f) /\ step' = [thr |-> "JOB", act |-> "JobRun", fail |-> f]
+       \* a failing Broker.Unsubscribe: the job cools down, returns the error and is put back into the queue
+       /\ jobs' = IF f THEN jobs ELSE jobs - 1
+       /\ brokerSub' = IF hubE = 0 /\ ~f THEN FALSE ELSE brokerSub
+  /\ UNCHANGED <<ops, async, nopush, attr, pc, loc, entry, ctr, closedGens, hubE, hubA, pres, status, closeReq, closing, settled, established, jl, cbs, out>>
 
 \* the periodic presence tick that follows once everything is quiet ("settled" in C06)
 SettleTick ==
   /\ AllDone /\ ~settled
   /\ settled' = TRUE
   /\ pres' = IF status # "closed" /\ Has /\ entry.sub THEN TRUE ELSE pres
-  /\ UNCHANGED <<ops, async, nopush, pc, loc, entry, ctr, closedGens, hubE, brokerSub, jobs, status, closeReq, closing, established, jl, cbs, out>>
-  /\ step' = [thr |-> "TK2", act |-> "SettleTick"]
+  /\ UNCHANGED <<ops, async, nopush, attr, faults, hist, pc, loc, entry, ctr, closedGens, hubE, hubA, brokerSub, jobs, status, closeReq, closing, established, jl, cbs, out>>
+  /\ step' = [thr |-> "TK2", act |-> "SettleTick", fail |-> FALSE]
 
 Next ==
   IF UrgentClose /\ closeReq /\ pc["CL"] = "idle" THEN CLStart ELSE
@@ -390,13 +453,15 @@ Quiescent  == AllDone
 Subscribed == Has /\ entry.sub
 Count(s, x) == Cardinality({i \in 1..Len(s) : s[i] = x})
 
-TypeOK == /\ jobs >= 0 /\ ctr <= 2
+TypeOK == /\ jobs >= 0 /\ ctr <= 2 /\ faults <= MaxFaults /\ hubA \in AttrVals /\ (hubE = 0 => hubA = "none")
           /\ \A t \in Threads : pc[t] \in {"idle", "cb", "bsub", "pres", "replied", "committed", "join", "snap", "rempres",
                                           "leave", "ucb", "tclose", "kdisc", "tkalive", "tkpres", "done"}
 
-\* C04: once settled, "reports itself subscribed" <=> exactly one routing entry, of the same generation
+\* C04: once settled, "reports itself subscribed" <=> exactly one routing entry, of the same generation, carrying the
+\* routing attributes of the subscription the connection reports (the one whose subscribe owns that generation)
+AttrOfGen(g) == IF loc["CS"].gen = g THEN attr.CS ELSE attr.SS
 C04 == Quiescent => /\ (Subscribed <=> hubE # 0)
-                    /\ (Has => (entry.sub /\ hubE = entry.gen))
+                    /\ (Has => (entry.sub /\ hubE = entry.gen /\ hubA = AttrOfGen(entry.gen)))
 \* the hub never carries an entry of a generation other than the current reservation/subscription once settled
 C05 == (Quiescent /\ status = "closed") => (~Has /\ hubE = 0 /\ ~pres)
 C06 == (Quiescent /\ settled) => (Subscribed <=> pres)
@@ -425,6 +490,32 @@ W_ReservationLost      == ~(step.act \in {"Commit", "PresenceCommit"} /\ establi
 W_StaleTickPresence    == ~(Quiescent /\ status = "closed" /\ pres)
 W_ResubscribeBeforeJob == ~(jobs > 0 /\ hubE # 0 /\ ctr = 2)
 
+\* quiescent witnesses (replayed to the end, so the settled-state monitors run on them): a resubscribe whose addSub
+\* overtakes the previous unsubscribe's removeSub with different routing attributes; failing round trips per call site
+W_OverwriteByCS   == ~(Quiescent /\ <<"over", "CS">> \in hist /\ Subscribed /\ ~entry.ss)
+W_OverwriteBySS   == ~(Quiescent /\ <<"over", "SS">> \in hist /\ Subscribed /\ entry.ss)
+W_LeaveFailsCU    == ~(Quiescent /\ <<"PublishLeave", "CU">> \in hist)
+W_LeaveFailsSU    == ~(Quiescent /\ <<"PublishLeave", "SU">> \in hist)
+W_LeaveFailsCL    == ~(Quiescent /\ <<"PublishLeave", "CL">> \in hist)
+W_RemPresFailsCU  == ~(Quiescent /\ <<"RemovePresence", "CU">> \in hist)
+W_AddPresFailsCS  == ~(Quiescent /\ <<"AddPresence", "CS">> \in hist)
+W_AddPresFailsSS  == ~(Quiescent /\ <<"AddPresence", "SS">> \in hist)
+W_JobFails        == ~(Quiescent /\ jobs = 0 /\ <<"BrokerUnsubscribe", "JOB">> \in hist)
+WOpsA == {{"SS", "SU", "CS"}}
+WOpsB == {{"CS", "CU", "SS"}}
+WOpsC == {{"CS", "CU"}}
+WOpsD == {{"SS", "SU"}}
+WOpsE == {{"SS", "CL"}}
+WOpsF == {{"CS"}}
+WOpsG == {{"SS"}}
+AP_A  == {<<"none", "fA">>}
+AP_B  == {<<"fA", "fB">>}
+NoFaults == {}
+F_Leave  == {"PublishLeave"}
+F_RemP   == {"RemovePresence"}
+F_AddP   == {"AddPresence"}
+F_Unsub  == {"BrokerUnsubscribe"}
+
 WOps1 == {{"SS", "SU", "CS", "TK"}}
 WOps2 == {{"CS", "SU"}, {"SS", "CL"}}
 WOps3 == {{"CS", "CL"}}
@@ -433,5 +524,5 @@ WOps5 == {{"CS", "SU"}}
 WOps6 == {{"SS", "CU", "CS", "CL", "TK"}}
 WOps7 == {{"SS", "SU", "CS"}}
 
-View == <<ops, async, nopush, pc, loc, entry, ctr, closedGens, hubE, brokerSub, jobs, pres, status, closeReq, closing, settled, established, jl, cbs, out>>
+View == <<ops, async, nopush, attr, faults, pc, loc, entry, ctr, closedGens, hubE, hubA, brokerSub, jobs, pres, status, closeReq, closing, settled, established, jl, cbs, out>>
 =============================================================================
